@@ -53,7 +53,8 @@ def judge_observations(c, scen, res, deaths, must, name="observations"):
                 stats["skipped"] += 1
                 continue
             for cs in ev.get("cases", []):
-                obs.append({"obs": cs["obs"], "lib": cs["lib"], "must": bool(must and cs.get("cert") == 0 and ev.get("mutation") == "unchanged")})
+                obs.append({"obs": cs["obs"], "lib": cs["lib"], "must": bool(must and cs.get("cert") == 0 and ev.get("mutation") == "unchanged"),
+                            "parse_ok": bool(ev.get("parse_ok", True)), "marshal_equal": bool(ev.get("marshal_equal", True))})
                 back.append((s, ev, cs))
                 stats["n"] += 1
                 stats["parsed"] += 1 if cs["obs"].get("parsed") else 0
